@@ -206,7 +206,30 @@ def gen_problem(rng, with_objectives=False, allow_custom=True, custom_kinds=None
         if rng.random() < 0.5:
             os_.reverse()
         cs = [c for c in cs if c[0] not in ("EnforceTranslation", "AvoidChanges", "EnforceChoice", "EnforceSequence")]
-    elif with_objectives and fam < 0.28:
+    elif with_objectives and fam < 0.34:
+        # an edit allowance on a strict sub-region (AvoidChanges max_edits = k) under an objective that
+        # wants many edits there: the allowance must hold over the WHOLE optimisation, not per local problem
+        n2 = len(seq)
+        a = rng.randint(2, max(2, n2 // 4))
+        b = rng.randint(min(n2 - 2, a + 12), n2 - 2) if a + 12 <= n2 - 2 else n2 - 2
+        region = seq[a:b]
+        letter = max("ACGT", key=region.count)
+        cs = [("AvoidChanges", kw(location=(a, b, 0), max_edits=rng.choice([1, 2, 3])))]
+        os_ = [rng.choice([("AvoidPattern", kw(pattern=letter, boost=1.0, location=None)),
+                           ("EnforceGCContent", kw(target=0.0 if letter in "GC" else 1.0, window=4, boost=1.0, location=None)),
+                           ("EnforceChanges", kw(boost=1.0, location=None))])]
+    elif with_objectives and fam < 0.4:
+        # EnforceSequence used as a weighted objective on the reverse strand, mismatches close together
+        n2 = len(seq)
+        a = rng.randint(0, n2 - 8)
+        b = rng.randint(a + 6, min(n2, a + 14))
+        tgt = list(rcs(seq[a:b]))
+        for i in rng.sample(range(len(tgt)), min(len(tgt), rng.choice([2, 3, 4]))):
+            tgt[i] = rng.choice([c for c in "ACGT" if c != tgt[i]])
+        os_ = [("EnforceSequence", kw(location=(a, b, -1), sequence="".join(tgt), boost=rng.choice([1.0, 2.5]))),
+               ("AvoidChanges", kw(boost=rng.choice([0.5, 0.6, 1.5]), location=None))]
+        cs = [c for c in cs if c[0] not in ("EnforceTranslation", "AvoidChanges", "EnforceChoice", "EnforceSequence")]
+    elif with_objectives and fam < 0.46:
         # a constraint that an edit OUTSIDE its location can breach (k-mers of a region must stay unique
         # in the whole sequence) and an objective that gains by copying one of those k-mers elsewhere
         k = rng.choice([4, 5])
